@@ -219,6 +219,8 @@ func hasFieldStores(a ssa.Value) bool {
 }
 
 func typeName(t types.Type) string {
+	// a declared alias (type A = T) is T
+	t = types.Unalias(t)
 	s := types.TypeString(t, func(p *types.Package) string { return p.Name() })
 	return s
 }
